@@ -20,6 +20,9 @@ def GEN():
 
 GENERAL = ['PGA.LibTable.C14_psd_of_certificate', 'PGA.LibTable.C14_chainFree_sound', 'PGA.LibTable.C14_wfGroup_plain',
            'PGA.LibTable.C14_wfGroup_range', 'PGA.LibTable.dd_psd',
+           # T1 (PGA/Props/C14Eval.lean): a well-formed record is constructed by the thermo model of C05/C06 and evaluates on its range
+           'PGA.LibTable.Dec.toThermo_toRat', 'PGA.Thermo.RawData.mk_ok_of', 'PGA.LibTable.C14_wf_group_constructs',
+           'PGA.LibTable.C14_wf_group_evaluates', 'PGA.LibTable.C14_wf_group_reproduces', 'PGA.LibTable.C14_wf_group_range_row',
            'PGA.Paths.C14_dataDir_cached', 'PGA.Paths.C14_dataDir_override', 'PGA.Paths.C14_resolve_builtin',
            'PGA.Paths.C14_resolve_explicit']
 
@@ -207,10 +210,11 @@ def run(ctx):
         ctx.count('corpus')
         replay(ctx, rec)
     # --- three ways of locating each library, in fresh processes (run in parallel)
-    reloc = os.path.join(ctx.scratch, 'elsewhere', 'relocated_data')
+    tag = 'search' if ctx.searching else 'run'      # `run` is called a second time while searching: fresh copies
+    reloc = os.path.join(ctx.scratch, 'elsewhere-' + tag, 'relocated_data')
     shutil.copytree(pkg_data, reloc)
     # a copy of the package WITHOUT its bundled data: the override alone must locate the libraries
-    nodata = os.path.join(ctx.scratch, 'nodata_pkg')
+    nodata = os.path.join(ctx.scratch, 'nodata_pkg-' + tag)
     shutil.copytree(os.path.dirname(pgradd.__file__), os.path.join(nodata, 'pgradd'),
                     ignore=lambda d, fs: [f for f in fs if (os.path.basename(d) == 'pgradd' and f == 'data') or f == '__pycache__'])
     procs = {
@@ -291,14 +295,31 @@ def run(ctx):
         model_reqs.append(({'op': 'c14.wfgroups', 'lib': nm}, sorted([g, py_wf(v)] for g, v in d['groups'].items()), {'library': nm, 'check': 'wfGroup'}))
     # in-process libraries (the very objects the translator dumps): consistency with the fresh-process dumps, then evaluation
     for nm in names:
-        lib = libs.load(nm)
         d = dumps['name']['libs'][nm]
         if 'error' in d:
-            continue
+            continue            # already a violation ('a bundled library does not load'); nothing to evaluate in-process
+        lib = libs.load(nm)
         here = sorted(str(g) for g in lib.contents)
         if here != sorted(d['groups']):
             raise common.MachineryError('translator process and fresh process disagree on the groups of ' + nm)
         evaluate_groups(ctx, nm, lib, d)
+        # C14-T1 tie: every record through the constructors of the thermo model (driver) vs the loaded object: constructed,
+        # inner table correlation present, number of points, effective range (declared, else the one of the table correlation)
+        exp = []
+        for g, ps in lib.contents.items():
+            th = ps.get('thermochem')
+            if th is None:
+                continue
+            rng = th.get_range()
+            if rng is None and hasattr(th, '_correlation'):
+                rng = th._correlation.get_range()
+            try:
+                rj = None if rng is None else [common.jrat(common.frac_of_float(float(rng[0]))), common.jrat(common.frac_of_float(float(rng[1])))]
+            except Exception:
+                rj = 'NOTNUMBER'
+            exp.append({'name': str(g), 'out': {'ok': True, 'hasCorr': hasattr(th, '_correlation'), 'npts': len(th.ND_Cp_data or {})},
+                        'range': rj})
+        model_reqs.append(({'op': 'c14.correlations', 'lib': nm}, sorted(exp, key=lambda e: e['name']), {'library': nm, 'check': 'correlation'}))
     # data-directory lookup: model vs a direct reading of the property (small exhaustive table)
     for cache in (None, '/c'):
         for env in (None, '', '/e'):
@@ -329,6 +350,9 @@ def run(ctx):
                 rep = rep['library']
             elif req['op'] == 'c14.wfgroups':
                 rep = sorted([r['name'], r['wf']] for r in rep)
+            elif req['op'] == 'c14.correlations':
+                rep = sorted(rep, key=lambda e: e['name'])
+                ctx.count('corr_c14.correlations_groups', len(rep))
             if rep != impl:
                 ctx.disagree('corr:' + req['op'], inp, impl if not isinstance(impl, list) else [x for x in impl if x not in rep][:5],
                              rep if not isinstance(rep, list) else [x for x in rep if x not in impl][:5])
